@@ -900,6 +900,7 @@ func (vc *VC) callByContract(fr *frame, st *State, ct *Contract, fo *types.Func,
 			fr.specPos = pos
 		}
 		vc.applyHints(fr, st, "after:"+short)
+		vc.applyHints(fr, st, fmt.Sprintf("after:%s#%d", short, fr.callOrd[short]))
 		fr.specPos = savedPos
 	}
 	return out
